@@ -205,7 +205,36 @@ func directiveCase(layer string, in []byte, fix bool) (msg string, accepted bool
 	return "", true
 }
 
+// FirstCalls is the menu of the fresh-process call-order check.
+func FirstCalls() []fw.Call {
+	var out []fw.Call
+	for _, in := range []string{"module example.com/m\n\ngo 1.21\n\nrequire (\n\ta.com/x v1.0.0 // indirect\n\tb.com/y v1.1.0\n)\n", "a b // c\n// d\ne (\n\tf \"g h\"\n)\n", "x \"unterminated\n", "go 1.21\n\nuse (\n\t./a\n\t\"./b c\"\n)\n"} {
+		in := in
+		out = append(out, fw.Call{Name: fmt.Sprintf("syntax(%q)", in), F: func() string {
+			msg, acc := syntaxCase([]byte(in))
+			return fmt.Sprint(msg, acc)
+		}})
+		out = append(out, fw.Call{Name: fmt.Sprintf("typed(%q)", in), F: func() string {
+			f, err := modfile.Parse("go.mod", []byte(in), nil)
+			if err != nil {
+				w, err2 := modfile.ParseWork("go.work", []byte(in), nil)
+				if err2 != nil {
+					return "err=" + err.Error() + " / " + err2.Error()
+				}
+				return string(modfile.Format(w.Syntax))
+			}
+			b, err := f.Format()
+			return fmt.Sprintf("%s err=%v", b, err)
+		}})
+	}
+	out = append(out, fw.Call{Name: "quote", F: func() string {
+		return fmt.Sprint(modfile.AutoQuote("a b"), modfile.AutoQuote("x"), modfile.MustQuote("(("), modfile.IsDirectoryPath("./x"), modfile.ModulePath([]byte("module \"a.b/c\"\n")))
+	}})
+	return out
+}
+
 func Run(r *fw.Run) {
+	defer fw.FirstCallOrders(r, r.ID, FirstCalls(), nil)
 	L := r.Pick(7, 8)
 	D := r.Pick(5, 6)
 	K := r.Pick(2, 3)
